@@ -10,6 +10,7 @@ for sid in "${ids[@]}"; do
   own=$(jq -r .caught_by seeded/$sid/meta.json | grep -o 'C[0-9][0-9]' | sort -u | tr '\n' ' ')
   case " $own " in *" $prop "*) ;; *) echo "NOTE  $sid: its own check $prop is not claimed to catch it (caught by: $own)";; esac
   first=$(echo $own | cut -d' ' -f1); case " $own " in *" $prop "*) first=$prop;; esac
+  if [ -z "$first" ]; then echo "KNOWNMISS $sid: kept as a change no check reports (see its meta.json)"; continue; fi
   out=$(tools/seedcheck.sh seeded/$sid/patch.diff $first 2>&1)
   if echo "$out" | grep -q "does not apply"; then echo "STALE $sid: patch does not apply"; miss=$((miss+1)); continue; fi
   if echo "$out" | grep -q "SUITE: FAILS"; then echo "SUITE $sid: repository suite fails with the change"; fi
